@@ -6,7 +6,7 @@ import CifModel.Gen.ErrCodes
     cif_walk        ↔ walk / walkBlocks         (the `handle_blocks` flag, SKIP_SIBLINGS/END → CIF_OK)
     walk_container  ↔ walkCont / walkFrames     (the `handle_frames` / `handle_loops` flags, the fall-through switch)
     walk_loops      ↔ walkLoops                 (`result` = result of the last loop walked; CIF_OK for no loops)
-    walk_loop       ↔ walkLoop / walkPackets    (CIF_EMPTY_LOOP for a packet-less loop; the CIF_FINISHED test)
+    walk_loop       ↔ walkLoop / walkPackets    (CIF_EMPTY_LOOP for a packet-less loop; the `stopped` flag)
     walk_packet     ↔ walkPacket / walkItems
     walk_item       ↔ call … (.item …)
 
@@ -104,15 +104,15 @@ def walkPacket (p : Prog) (pk : List (Str × V)) (w : W) : Int × W :=
   | (some r, w) => (r, w)
   | (none, w) => call p w (.pktEnd pk)
 
-/-- the packet iteration of walk_loop: the value of `result` when the `while` is left
-    (`FINISHED` when `cif_pktitr_next_packet` ran out of packets) -/
-def walkPackets (p : Prog) : List (List (Str × V)) → W → Int × W
-  | [], w => (FINISHED, w)
+/-- the packet iteration of walk_loop: the `stopped` flag (a handler, not the iterator, ended the iteration) and the
+    value of `result` when the `while` is left (`FINISHED` when `cif_pktitr_next_packet` ran out of packets) -/
+def walkPackets (p : Prog) : List (List (Str × V)) → W → Bool × Int × W
+  | [], w => (false, FINISHED, w)
   | pk :: pks, w =>
     let (r, w) := walkPacket p pk w
     if r = CONTINUE ∨ r = SKIP_CURRENT then walkPackets p pks w
-    else if r = SKIP_SIBLINGS then (CONTINUE, w)
-    else (r, w)
+    else if r = SKIP_SIBLINGS then (true, CONTINUE, w)
+    else (true, r, w)
 
 /-- walk_loop -/
 def walkLoop (p : Prog) (l : WLoop) (w : W) : Int × W :=
@@ -120,7 +120,27 @@ def walkLoop (p : Prog) (l : WLoop) (w : W) : Int × W :=
   if r ≠ CONTINUE then (r, w) else
   if l.packets.isEmpty then (EMPTY_LOOP, w)          -- cif_loop_get_packets fails
   else
-    let (r, w) := walkPackets p l.packets w
+    let (stopped, r, w) := walkPackets p l.packets w
+    if stopped ∨ r ≠ FINISHED then (r, w)
+    else call p w (.loopEnd l.category l.names)
+
+/-- the packet iteration as it was before fix d1128e2 (no `stopped` flag): only `result` -/
+def walkPacketsPinned (p : Prog) : List (List (Str × V)) → W → Int × W
+  | [], w => (FINISHED, w)
+  | pk :: pks, w =>
+    let (r, w) := walkPacket p pk w
+    if r = CONTINUE ∨ r = SKIP_CURRENT then walkPacketsPinned p pks w
+    else if r = SKIP_SIBLINGS then (CONTINUE, w)
+    else (r, w)
+
+/-- walk_loop before fix d1128e2: "iterator exhausted" was recognised by `result == CIF_FINISHED` alone, so a handler
+    answering 1 was taken for the end of the iteration (finding F32, fixed) -/
+def walkLoopPinned (p : Prog) (l : WLoop) (w : W) : Int × W :=
+  let (r, w) := call p w (.loopStart l.category l.names)
+  if r ≠ CONTINUE then (r, w) else
+  if l.packets.isEmpty then (EMPTY_LOOP, w)
+  else
+    let (r, w) := walkPacketsPinned p l.packets w
     if r ≠ FINISHED then (r, w)
     else call p w (.loopEnd l.category l.names)
 
